@@ -41,7 +41,7 @@ def h_sustain(c):
   for i in range(N):
     s = c.real('n%d_s' % i, 0)
     e = c.real('n%d_e' % i)
-    c.assume(e > s)
+    c.assume(e >= s)  # zero-duration notes are legal NoteSequence notes
     p = c.int('n%d_p' % i, 60, 61)
     # instruments are concrete per job (all assignments are enumerated as
     # separate jobs so that they run in parallel)
@@ -54,8 +54,12 @@ def h_sustain(c):
   for a in range(N):
     for b in range(a + 1, N):
       A, B = notes[a], notes[b]
+      # no two overlapping notes of one pitch on one instrument (two notes
+      # starting together overlap, also when one of them has no duration)
       c.assume(c.Or(c.Not(c.eq(A['p'], B['p'])), A['i'] != B['i'], A['d'],
-                    B['d'], A['e'] <= B['s'], B['e'] <= A['s']))
+                    B['d'],
+                    c.And(c.Or(A['e'] <= B['s'], B['e'] <= A['s']),
+                          c.Not(c.eq(A['s'], B['s'])))))
   ccs = []
   for j in range(P):
     t = c.real('c%d_t' % j, 0)
@@ -135,6 +139,8 @@ def h_sustain(c):
     c.cover('pedal event exactly at a note end', c.eq(c0['t'], n0['e']))
     c.cover('pedal value exactly 64', c.eq(c0['v'], 64))
     c.cover('pedal value exactly 63', c.eq(c0['v'], 63))
+  if N >= 1:
+    c.cover('a note without duration', c.eq(notes[0]['s'], notes[0]['e']))
   if N >= 2:
     c.cover('same pitch struck again while held',
             c.And(c.eq(notes[0]['p'], notes[1]['p']),
